@@ -92,6 +92,7 @@ var preludeBlocks = []preludeBlock{
 (assert (forall ((a Int) (n Int)) (! (=> (and (>= a 0) (> n 0)) (and (<= 0 (umod a n)) (< (umod a n) n))) :pattern ((umod a n)))))
 (assert (forall ((a Int) (n Int)) (! (=> (and (<= 0 a) (< a n)) (= (umod a n) a)) :pattern ((umod a n)))))
 (assert (forall ((a Int) (c Int) (n Int)) (! (=> (and (>= c 0) (> n 0) (= a (+ c n))) (= (umod a n) (umod c n))) :pattern ((umod a n) (umod c n)))))
+(assert (forall ((a Int) (c Int) (n Int)) (! (=> (and (>= c 0) (> n 0) (= a (+ c 1))) (= (umod a n) (ite (= (+ (umod c n) 1) n) 0 (+ (umod c n) 1)))) :pattern ((umod a n) (umod c n)))))
 `},
 	{[]string{"ix"}, `(declare-fun ix (Int Int) Int)
 (assert (forall ((o Int) (i Int)) (! (= (ix o i) (+ o i)) :pattern ((ix o i)))))
